@@ -72,8 +72,8 @@ fn one<T: RelationToQueryTranslator + QueryToRelationTranslator + Copy>(cx: &mut
         cx.st.violation(json!({"kind":"read-back-column-names-differ","dialect":name,"class":cx.class,"query":cx.sql,"schema":a,"read_back":b}));
     } else if a != b {
         let pairs: Vec<(&(String, String), &(String, String))> = a.iter().zip(b.iter()).filter(|(x, y)| x != y).collect();
-        let boolish = |t: &str| t.starts_with("bool") || t.starts_with("option(bool") || t == "null";
-        let change = if pairs.iter().all(|(x, y)| boolish(&x.1) && !boolish(&y.1)) { "boolean-to-number" } else { "other" };
+        let boolish = |t: &str| t.starts_with("bool") || t.starts_with("option(bool") || t == "null" || t == "∅" || t == "option(∅)";
+        let change = if pairs.iter().all(|(x, y)| boolish(&x.1) && (!boolish(&y.1) || x.1 != y.1 && (y.1 == "null" || x.1 == "∅"))) { "boolean-to-number" } else { "other" };
         cx.st.violation(json!({"kind":"read-back-column-types-differ","dialect":name,"class":cx.class,"construct":change,"query":cx.sql,"differ":pairs.iter().take(3).collect::<Vec<_>>()}));
     }
 }
